@@ -47,19 +47,34 @@ type Package struct {
 func (p *Package) Singletons() []*Package {
 	var out []*Package
 	for i, c := range p.Cases {
-		// keep only the imports this case uses (Go rejects unused imports)
-		var pre []string
+		// keep only the imports this case (or the shared prelude declarations) uses: Go rejects
+		// unused imports
+		var pre, imports []string
+		inBlock := false
 		for _, l := range strings.Split(p.Prelude, "\n") {
-			if strings.HasPrefix(l, "import \"") {
-				path := strings.Trim(strings.TrimPrefix(l, "import "), "\"")
-				base := path[strings.LastIndex(path, "/")+1:]
-				if !strings.Contains(c.Src, base+".") && !strings.Contains(strings.Join(strings.Split(p.Prelude, "\n"), " "), " "+base+".") {
-					continue
-				}
+			t := strings.TrimSpace(l)
+			switch {
+			case t == "import (":
+				inBlock = true
+			case inBlock && t == ")":
+				inBlock = false
+			case inBlock && strings.HasPrefix(t, "\""):
+				imports = append(imports, strings.Trim(t, "\""))
+			case strings.HasPrefix(t, "import \""):
+				imports = append(imports, strings.Trim(strings.TrimPrefix(t, "import "), "\""))
+			default:
+				pre = append(pre, l)
 			}
-			pre = append(pre, l)
 		}
-		prelude := strings.Join(pre, "\n")
+		body := strings.Join(pre, "\n") + "\n" + c.Src
+		var keep []string
+		for _, path := range imports {
+			base := path[strings.LastIndex(path, "/")+1:]
+			if strings.Contains(body, base+".") {
+				keep = append(keep, "import \""+path+"\"")
+			}
+		}
+		prelude := strings.Join(keep, "\n") + "\n" + strings.Join(pre, "\n")
 		q := &Package{Name: fmt.Sprintf("%ss%d", p.Name, i), Files: map[string]string{}, Prelude: prelude}
 		src := "package " + q.Name + "\n\n" + prelude + "\n"
 		from := strings.Count(src, "\n") + 1
